@@ -424,6 +424,7 @@ fn cancel_faults(ctx: &Ctx, rng: &mut Rng, s: &SizeInfo, faults: &mut Vec<Fault>
 /// uncorrectable AND drive the locator search through its rare branches.
 fn cancel_faults_w(ctx: &Ctx, rng: &mut Rng, s: &SizeInfo, faults: &mut Vec<Fault>, beyond: bool) -> bool {
     let t = s.t();
+    let k = s.k;
     if t < 2 || !ctx.gf_ok[s.idx] {
         return false;
     }
@@ -434,9 +435,11 @@ fn cancel_faults_w(ctx: &Ctx, rng: &mut Rng, s: &SizeInfo, faults: &mut Vec<Faul
     let mode = rng.below(3);
     // the linear mode is cheap for any weight (favour full weight t); the determinant search is kept small
     let e = if beyond {
-        rng.range(t + 1, (t + 4).min(s.k))
+        rng.range(t + 1, (t + 4).min(k))
     } else if mode == 0 {
         if rng.chance(1, 2) { t } else { rng.range(2, t) }
+    } else if rng.chance(1, 3) && t <= 12 {
+        t
     } else {
         rng.range(2, t.min(8))
     };
@@ -454,80 +457,124 @@ fn cancel_faults_w(ctx: &Ctx, rng: &mut Rng, s: &SizeInfo, faults: &mut Vec<Faul
             gf.alpha_pow(nb - 1 - idx)
         })
         .collect();
-    let pw = |x: u8, j: usize| -> u8 {
-        let mut r = 1u8;
-        for _ in 0..j {
-            r = gf.mul(r, x);
+    // which syndromes (1-based) are forced to zero: a prefix, a suffix (the LAST ones), a window, both ends,
+    // or a random subset
+    let zero_set = |rng: &mut Rng, m: usize| -> Vec<usize> {
+        let m = m.min(k);
+        match rng.below(10) {
+            0..=4 => (1..=m).collect(),
+            5 | 6 => (k - m + 1..=k).collect(),
+            7 => {
+                let a = rng.range(1, k - m + 1);
+                (a..a + m).collect()
+            }
+            8 => {
+                let p = rng.range(0, m);
+                (1..=p).chain(k - (m - p) + 1..=k).collect()
+            }
+            _ => {
+                let mut v = rng.sample_distinct(k, m);
+                v.sort();
+                v.into_iter().map(|x| x + 1).collect()
+            }
         }
-        r
+    };
+    // solve the unknown values ys[u], u in `unknown`, so that S_j = 0 for j in `zeros` given the other values
+    let solve_zeros = |ys: &mut Vec<u8>, unknown: &[usize], zeros: &[usize]| -> bool {
+        let m = unknown.len();
+        if m == 0 {
+            return true;
+        }
+        let mut a = vec![0u8; m * m];
+        let mut rhs = vec![0u8; m];
+        for (r, j) in zeros.iter().enumerate() {
+            for (c, u) in unknown.iter().enumerate() {
+                a[r * m + c] = gf_pow(gf, xs[*u], *j);
+            }
+            let mut acc = 0u8;
+            for i in 0..xs.len() {
+                if !unknown.contains(&i) {
+                    acc ^= gf.mul(ys[i], gf_pow(gf, xs[i], *j));
+                }
+            }
+            rhs[r] = acc;
+        }
+        match gf.solve(&a, &rhs, m) {
+            Some(sol) => {
+                for (c, u) in unknown.iter().enumerate() {
+                    ys[*u] = sol[c];
+                }
+                true
+            }
+            None => false,
+        }
     };
     let mut ys = vec![0u8; e];
     if mode == 0 {
-        // S_1..S_m = 0, m < e: fix the last e-m values, solve the first m
+        // m < e chosen syndromes vanish: fix the last e-m values, solve the first m
         let m = if beyond {
-            rng.range(1, (e - 1).min(s.k - 1))
+            rng.range(1, (e - 1).min(k - 1))
         } else if rng.chance(2, 5) {
             e - 1
         } else {
             rng.range(1, e - 1)
         };
+        let zeros = zero_set(rng, m);
+        let m = zeros.len();
         for y in ys.iter_mut().skip(m) {
             *y = rng.nonzero_byte();
         }
-        let mut a = vec![0u8; m * m];
-        let mut rhs = vec![0u8; m];
-        for j in 0..m {
-            for i in 0..m {
-                a[j * m + i] = pw(xs[i], j + 1);
-            }
-            let mut acc = 0u8;
-            for i in m..e {
-                acc ^= gf.mul(ys[i], pw(xs[i], j + 1));
-            }
-            rhs[j] = acc;
-        }
-        match gf.solve(&a, &rhs, m) {
-            Some(sol) => ys[..m].copy_from_slice(&sol),
-            None => return false,
+        let unknown: Vec<usize> = (0..m).collect();
+        if !solve_zeros(&mut ys, &unknown, &zeros) {
+            return false;
         }
     } else {
-        // singular leading minor H_v (1 <= v < e): search the last value
+        // a singular leading minor H_v (1 <= v < e), optionally TOGETHER with some vanishing syndromes:
+        // search the last value, solving the linear part for every candidate
         let v = if beyond {
             rng.range(1, (e - 1).min(t - 1).min(6))
         } else if mode == 1 {
             rng.range(1, (e - 1).min(3))
+        } else if rng.chance(1, 2) {
+            (e - 1).min(12)
         } else {
-            rng.range(1, e - 1)
+            rng.range(1, (e - 1).min(12))
         };
-        for y in ys.iter_mut().take(e - 1) {
-            *y = rng.nonzero_byte();
-        }
         let need = 2 * v - 1;
-        if need > s.k {
+        if need > k {
             return false;
         }
-        let mut found = None;
+        let m = if e >= 3 && rng.chance(1, 2) { rng.range(1, (e - 2).min(4)) } else { 0 };
+        let zeros = if m > 0 { zero_set(rng, m) } else { vec![] };
+        let m = zeros.len();
+        let unknown: Vec<usize> = (0..m).collect();
+        for y in ys.iter_mut().take(e - 1).skip(m) {
+            *y = rng.nonzero_byte();
+        }
+        let mut found = false;
         let start = rng.below(255);
         for off in 0..255 {
             let cand = 1 + ((start + off) % 255) as u8;
             ys[e - 1] = cand;
+            if !solve_zeros(&mut ys, &unknown, &zeros) {
+                continue;
+            }
             let syn: Vec<u8> = (1..=need.max(1))
                 .map(|j| {
                     let mut acc = 0u8;
                     for i in 0..e {
-                        acc ^= gf.mul(ys[i], pw(xs[i], j));
+                        acc ^= gf.mul(ys[i], gf_pow(gf, xs[i], j));
                     }
                     acc
                 })
                 .collect();
             if gf.hankel_det(&syn, v) == 0 {
-                found = Some(cand);
+                found = true;
                 break;
             }
         }
-        match found {
-            Some(c) => ys[e - 1] = c,
-            None => return false,
+        if !found {
+            return false;
         }
     }
     for (p, y) in chosen.iter().zip(ys.iter()) {
